@@ -10,7 +10,7 @@ Import ListNotations.
 Local Open Scope string_scope.
 Local Open Scope list_scope.
 From YP Require Import Base.Str Term.Term Term.Show Term.Fast Term.Dfast Unify.Unify Unify.Fast Unify.UnifyGen Unify.UnifyGenFast Lang.Ast Comp.IR
-  Comp.CompileBody Comp.CompileClause Sem.Machine Engine.GenMachine Engine.Restore Engine.RunGen Engine.IRMachine.
+  Comp.CompileBody Comp.CompileClause Sem.Machine Engine.GenMachine Engine.Restore Engine.RunGen Engine.IRMachine Engine.QueryFacts.
 
 (* def pyp(x): for v in (atom('a'), atom('c')): for _ in unify(x, v): yield False *)
 Definition pyp_user (name : str) (args : list term) : option (code lx fr callp * fr) :=
@@ -44,7 +44,10 @@ Definition snapshot_x (h : heap) (nvars : nat) : obs :=
    the exception came from a unification that needs a cyclic term: unspecified behaviour, the case
    is reported as "cyc" and not compared. *)
 Definition mkleaf_nc (x : lx) (h : heap) : leaf :=
-  match x with XUnify a b => LGen (UnifyGenFast.mk_unify_x h a b) | _ => mkleaf x h end.
+  match x with
+  | XUnify a b => LGen (UnifyGenFast.mk_unify_x h a b)
+  | XArrays xs ys => LGen (GArrFresh xs ys)
+  | _ => mkleaf x h end.
 
 Definition run_machine (fuel d : nat) (p : program) (db : list (str * nat * list fact)) (stk : list (term * term))
     (name : str) (args : list term) (nq kmax k : nat) : obs :=
@@ -109,6 +112,28 @@ Definition refine_example : bool :=
           | h1 :: h2 :: _ => obs_eqb (term_obs (dfast h1 (TVar 0))) (term_obs (TAtom (d "a"))) &&
                              obs_eqb (term_obs (dfast h2 (TVar 0))) (term_obs (TAtom (d "c")))
           | _ => false end
+      | _ => false
+      end
+  end.
+
+(* the same with a database of dynamic facts  d0(f(_)).  d0([]).   and   w(X,Y) :- d0(X), d0(Y). *)
+Definition ex_db : list (str * nat * list fact) :=
+  [ (d "d0", 1, [ (1, [TFun (d "f") [TVar 0]]); (0, [TAtom (d "[]")]) ]) ].
+Definition ex_w : list clause :=
+  [ {| c_name := d "w"; c_args := [SVar (d "X"); SVar (d "Y")];
+       c_body := BAnd (BCall (d "d0") [SVar (d "X")]) (BCall (d "d0") [SVar (d "Y")]) |} ].
+
+Definition refine_example_facts : bool :=
+  match compile_program ex_w with
+  | None => false
+  | Some ir =>
+      let big := QueryFacts.queryF ir (facts_of ex_db) 20 (d "w") [TVar 0; TVar 1] (mkst [] 2) in
+      match m_nexts ir (facts_of ex_db) (fun _ _ => None) 2000 20 9 [] (m_query ir (facts_of ex_db) (fun _ _ => None) (d "w") [TVar 0; TVar 1] 2) with
+      | Some (hf, IDone, ys, RStop) =>
+          Nat.eqb (length ys) 4 && Nat.eqb (length hf) 0 && negb (snd big) && Nat.eqb (length (fst big)) 4 &&
+          forallb (fun p => obs_eqb (OL (map (fun b => OL [onat (fst b); term_obs (snd b)]) (fst p)))
+                                    (OL (map (fun b => OL [onat (fst b); term_obs (snd b)]) (sto (snd p)))))
+                  (combine ys (fst big))
       | _ => false
       end
   end.
